@@ -78,8 +78,7 @@ func RateDivider(priorities []uint, dividend uint, distribution map[uint]uint) m
 		part := uint(math.Round(base * float64(priority)))
 
 		if remainder < part {
-			distribution[priority] += remainder
-			return distribution
+			part = remainder
 		}
 
 		distribution[priority] += part
